@@ -1,6 +1,7 @@
 mod driver;
 mod enumchecks;
 mod proto;
+mod protochecks;
 mod util;
 mod world;
 #[path = "/repo/node/src/config.rs"]
@@ -25,9 +26,63 @@ fn main() {
     };
     driver::panics::install();
     let code = match prop {
+        "C02" => protochecks::c02(tier),
+        "C05" => protochecks::c05(tier),
         "C17" => enumchecks::c17(tier),
         "C18" => enumchecks::c18(tier),
         "C20" => enumchecks::c20(tier),
+        "bench" => {
+            use std::sync::Arc;
+            let w = Arc::new(world::World::new(&[1, 1, 1, 1]));
+            let uni = proto::universe::Universe::new(w.clone(), true);
+            let t = std::time::Instant::now();
+            for _ in 0..100 {
+                let (ln, _r) = proto::node::LiveNode::boot(&w, &uni, 0);
+                drop(ln);
+            }
+            println!("boot+drop: {:?} each", t.elapsed() / 100);
+            let (mut l1, r1) = proto::node::LiveNode::boot(&w, &uni, 1);
+            let (mut l2, _) = proto::node::LiveNode::boot(&w, &uni, 2);
+            let b1 = r1.out[0].0;
+            let t = std::time::Instant::now();
+            for _ in 0..200 {
+                let _ = l2.apply(&uni, proto::universe::Ev::Deliver(b1));
+            }
+            println!("apply proposal (dup): {:?} each", t.elapsed() / 200);
+            let t = std::time::Instant::now();
+            for _ in 0..50 {
+                let _ = l1.apply(&uni, proto::universe::Ev::Timer);
+            }
+            println!("apply timer: {:?} each", t.elapsed() / 50);
+            let t = std::time::Instant::now();
+            for _ in 0..1000 {
+                l2.node.rt.quiesce();
+            }
+            println!("quiesce: {:?} each", t.elapsed() / 1000);
+            0
+        }
+        "dev" => {
+            // hsv dev <quick|thorough> <h4|h3c|b4> <who> <R> <T> <K> <property>
+            let kind = args[3].as_str();
+            let who: usize = args[4].parse().unwrap();
+            let r: u64 = args[5].parse().unwrap();
+            let t: u8 = args[6].parse().unwrap();
+            let k: u8 = args[7].parse().unwrap();
+            let p = args.get(8).map(|s| s.as_str()).unwrap_or("C02");
+            let cfg = match kind {
+                "h4" => proto::cfg_h4(r, t, tier),
+                "h3c" => proto::cfg_h3c(who, r, t, tier),
+                _ => proto::cfg_b4(who, r, t, k, tier),
+            };
+            let mut rep = util::Report::new("DEV", tier, "model_checking");
+            proto::run_configs(&mut rep, p, vec![cfg], 5);
+            for v in &rep.violations {
+                println!("  finding [{}] {}", v.signature, v.what);
+                println!("     replay: {}", v.replay);
+            }
+            println!("{}", serde_json::to_string_pretty(&rep.coverage.get("witnesses")).unwrap());
+            0
+        }
         _ => {
             eprintln!("unknown property {}", prop);
             2
